@@ -243,6 +243,7 @@ theorem nextAt_rest_torn (hL : LenField C) (d : ByteArray) (fuel : Nat) :
         rw [ih (d.extract (BS - H) d.size) J _ (block+1) (c - BS) k r hJ hsz
           (by simp [ByteArray.size_extract]; omega) (by simp [ByteArray.size_extract]; omega)
           (by omega) (by omega) (by omega) hu]
+        rfl
 
 /-- the chunks of one record (first chunk at (block, off)) of which only the first `c` bytes were
     persisted, followed by zeros that reach beyond the end of the record: end of log, provided the
@@ -304,6 +305,7 @@ theorem nextAt_rec_torn (hL : LenField C) (d J pre : ByteArray) (block off c k r
         (c - (BS - off)) k r hJ hsz
         (by simp [ByteArray.size_extract]; omega) (by simp [ByteArray.size_extract])
         (by omega) (by omega) (by omega) hu]
+      rfl
 
 /-! ## the writer's bytes for one record, partly persisted -/
 
